@@ -2,6 +2,7 @@ package props
 
 import (
 	"go/token"
+	"go/types"
 	"strings"
 
 	"golang.org/x/tools/go/ssa"
@@ -282,9 +283,89 @@ func c13() []*Ob {
 					}
 				}
 			}},
+		{Prop: "C13", ID: "C13.9", Engine: "PROV(no-truncation)+ALIAS", Floor: 3,
+			Desc:  "the bounds a dictionary block is pre-selected by are its whole first and last token, owned by the table: every value stored into token.TableEntry.MinVal / MaxVal and token.FieldData.MinVal, and what TableEntry.Pack writes for them, reaches its place without a re-slice that carries a bound, without token.cut, and without util.ByteToStringUnsafe (a copy, not a view of a read buffer that is reused for the next block) — a bound cut to some fixed length compares lower than a longer hint that starts with it, so the block that holds the token is skipped in the reloaded table only",
+			Check: func(c *Ctx) { tableBoundsWhole(c) }},
 		{Prop: "C13", ID: "C13.5", Engine: "PROV+SHAPE", Floor: 1,
 			Desc:  "structural necessities of the wildcard matcher: checkMiddle searches the middle fragments in val[len(prefix) : len(val)-len(suffix)] (not overlapping prefix or suffix); the prefix-function fallback in findSubstring and calcPrefFunc is iterated (a loop), not a single step",
 			Check: func(c *Ctx) { matcherShape(c) }},
+	}
+}
+
+// tableBoundsWhole: rule body of C13.9, shared with C03.
+func tableBoundsWhole(c *Ctx) {
+	// what the codec's primitive reads return is where a bound comes from: not looked behind
+	isOrigin := func(v ssa.Value) bool {
+		cl, ok := v.(*ssa.Call)
+		if !ok {
+			return false
+		}
+		n := CallName(cl)
+		return strings.HasPrefix(n, "(*packer.BytesUnpacker).") || strings.HasPrefix(n, "(*packer.BytesPacker).")
+	}
+	why := ""
+	isCutOrView := func(v ssa.Value) bool {
+		switch x := v.(type) {
+		case *ssa.Slice:
+			if x.Low == nil && x.High == nil {
+				return false
+			}
+			switch u := x.X.Type().Underlying().(type) {
+			case *types.Basic:
+				if u.Info()&types.IsString != 0 {
+					why = "a re-slice of the string"
+					return true
+				}
+			case *types.Slice:
+				if b, ok := u.Elem().Underlying().(*types.Basic); ok && b.Kind() == types.Uint8 {
+					why = "a re-slice of the bytes"
+					return true
+				}
+			}
+		case *ssa.Call:
+			switch CallName(x) {
+			case "frac/token.cut":
+				why = "token.cut"
+				return true
+			case "util.ByteToStringUnsafe":
+				why = "util.ByteToStringUnsafe (a view of the caller's buffer, not a copy)"
+				return true
+			}
+		}
+		return false
+	}
+	check := func(at ssa.Instruction, v ssa.Value, what string) {
+		why = ""
+		if DerivesFromStop(v, isCutOrView, isOrigin) {
+			c.Violation("prov:table-bound:"+what, at.Pos(), "%s does not receive the whole token as a value of its own: it passes through %s — in the table that is read back from the index file the block that holds a token can then be skipped (or the bound changes under the table when the read buffer is reused)", what, why)
+		} else {
+			c.Site(at.Pos(), "%s is the whole token, copied", what)
+		}
+	}
+	for _, fn := range c.P.Funcs {
+		if !c.P.InRepo(fn) {
+			continue
+		}
+		for _, tf := range [][2]string{{"frac/token.TableEntry", "MinVal"}, {"frac/token.TableEntry", "MaxVal"}, {"frac/token.FieldData", "MinVal"}} {
+			for _, in := range InstrsIn(fn, FieldStore(tf[0], tf[1])) {
+				check(in, in.(*ssa.Store).Val, tf[0][len("frac/token."):]+"."+tf[1])
+			}
+		}
+	}
+	if fn := c.Fn("(*frac/token.TableEntry).Pack"); fn != nil {
+		n := 0
+		for _, call := range CallsIn(fn, Callee("(*packer.BytesPacker).PutStringWithSize")) {
+			for _, f := range []string{"MinVal", "MaxVal"} {
+				f := f
+				if DerivesFromStop(Arg(call, 0), func(v ssa.Value) bool { return ValueIsField(v, "frac/token.TableEntry", f) }, isOrigin) {
+					n++
+					check(call.(ssa.Instruction), Arg(call, 0), "the packed "+f)
+				}
+			}
+		}
+		if n < 2 {
+			c.Undecided("prov:table-bound:pack", fn.Pos(), "TableEntry.Pack no longer writes MinVal and MaxVal with PutStringWithSize")
+		}
 	}
 }
 
